@@ -243,6 +243,11 @@ func installUniverse() {
 	mk("mathmod", []types.Type{intT, intT}, intT, false)
 	mk("pure", []types.Type{anyT}, anyT, false)
 	mk("b2i", []types.Type{boolT}, intT, false)
+	mk("sameBlock", []types.Type{anyT, anyT}, boolT, false)
+	mk("gget", []types.Type{types.Typ[types.String], anyT}, intT, false)             // integer ghost map name[key]
+	mk("gsame", []types.Type{types.Typ[types.String]}, boolT, false)                 // ghost map unchanged since old
+	mk("gsameExcept", []types.Type{types.Typ[types.String], types.NewSlice(anyT)}, boolT, true) // unchanged except at the given keys
+	mk("disjoint", []types.Type{anyT, anyT}, boolT, false)                          // two slices live in different blocks
 	mk("sameRef", []types.Type{anyT, anyT}, boolT, false)
 	mk("visited", []types.Type{anyT}, boolT, false)
 	mk("hasPrefix", []types.Type{anyT, anyT}, boolT, false)
